@@ -31,6 +31,7 @@ func init() { reg.Register("C17", Run) }
 //	b3, b5: function b at the same line, columns 3 and 5 (lines merges, lines+showcolumns splits)
 //	d:      a function with an empty name in b's file (shown by its file; files merges it with b)
 //	u:      a location without line information (a frame without function)
+//	root:   a function named "root" without a file name
 var Sigma = []enum.Kind{
 	{Line: ap.Line{Func: "a", Sys: "a", File: "f1.go", Start: 1, Line: 1}, Map: 0, Tag: "a1"},
 	{Line: ap.Line{Func: "a", Sys: "a", File: "f1.go", Start: 1, Line: 2}, Map: 0, Tag: "a2"},
@@ -39,6 +40,8 @@ var Sigma = []enum.Kind{
 	{Line: ap.Line{Func: "b", Sys: "b", File: "f2.go", Start: 1, Line: 1, Col: 5}, Map: 1, Tag: "b5"},
 	{Line: ap.Line{Func: "", File: "f2.go", Start: 5, Line: 7}, Map: 1, Tag: "d"},
 	{Unsym: true, Map: 1, Tag: "u"},
+	// a real function that happens to be called like the synthetic root of the flame graph, without a file name
+	{Line: ap.Line{Func: "root", Sys: "root", Line: 3}, Map: 0, Tag: "root"},
 }
 
 // value vectors (two sample types) per number of samples.
